@@ -59,6 +59,41 @@ class Lock:
         self.fh.close()
 
 
+def source_digests():
+    """sha256 of every library source file (the command-line front end is outside every property)"""
+    out = {}
+    root = os.path.join(REPO, "mysensors")
+    for dirpath, dirs, files in os.walk(root):
+        dirs[:] = [d for d in dirs if d not in ("cli", "__pycache__")]
+        for name in files:
+            if name.endswith(".py"):
+                path = os.path.join(dirpath, name)
+                with open(path, "rb") as fh:
+                    out[os.path.relpath(path, root)] = hashlib.sha256(fh.read()).hexdigest()
+    return out
+
+
+def changed_sources():
+    """Library files whose text differs from the tree this machinery was last run on by its authors
+    (spec/source_digests.json).  Used only to spend more search effort on changed code: a difference is
+    neither an obligation nor a violation."""
+    try:
+        with open(os.path.join(VERIF, "spec", "source_digests.json"), encoding="utf-8") as fh:
+            base = json.load(fh)
+    except (OSError, ValueError):
+        return []
+    cur = source_digests()
+    return sorted(k for k in set(base) | set(cur) if base.get(k) != cur.get(k))
+
+
+def effort(tier):
+    """Multiplier for the number of generated cases: the quick tier explores more when the library text
+    differs from the recorded tree (a change is being checked, not the tree we already explored)."""
+    if tier == "quick" and changed_sources():
+        return max(1, int(os.environ.get("VERIF_CHANGED_EFFORT", "4")))
+    return 1
+
+
 def regenerate():
     rc, out, err = sh([PY, os.path.join(VERIF, "tools", "gen_tables.py")], timeout=120)
     return rc == 0, (out + err).strip()
